@@ -1,14 +1,15 @@
 SPECIFICATION Spec
 CONSTANTS
-  Theme = "foo"
-  ML = 3
-  MW = 2
-  EML = 3
-  EMW = 2
+  Themes = {"foo", "pango", "sep", "meta1", "meta2", "la"}
+  ML = 2
+  MW = 1
+  EML = 2
+  EMW = 1
+  LaML = 2
   Variant = "asis"
-  Gran = "case"
+  Gran = "word"
   Cases <- MC_Cases
-  LaCases <- MC_None
+  LaCases <- MC_LaCases
 CHECK_DEADLOCK FALSE
 ALIAS Alias
 INVARIANT TypeOK
@@ -16,3 +17,5 @@ INVARIANT StepsAgree
 INVARIANT Inv_Property
 INVARIANT Inv_EqualsResolve
 INVARIANT Inv_Progress
+INVARIANT Inv_LaDlname
+INVARIANT Inv_LaPath
